@@ -124,6 +124,40 @@ CAMLprim value vp_crc32c(value s, value off)
 	return caml_copy_int64((int64_t)(uint64_t) mtbl_crc32c((const uint8_t *) String_val(s) + Long_val(off), caml_string_length(s) - Long_val(off)));
 }
 
+
+/* ---- compression from several threads at once (the library has no documented restriction) ---- */
+struct vp_mt_arg { int alg; int rounds; int seed; int failures; };
+static void *vp_mt_worker(void *p)
+{
+	struct vp_mt_arg *a = p;
+	unsigned x = 12345u + 7919u * (unsigned) a->seed;
+	for (int r = 0; r < a->rounds; r++) {
+		x = x * 1103515245u + 12345u;
+		size_t n = (x >> 8) % (r % 4 == 0 ? 200000u : 3000u);
+		uint8_t *buf = malloc(n + 1);
+		for (size_t i = 0; i < n; i++) { x = x * 1103515245u + 12345u; buf[i] = (i % 7 == 0) ? (uint8_t)(x >> 16) : (uint8_t)('a' + (i % 13)); }
+		uint8_t *c = NULL, *d = NULL; size_t cl = 0, dl = 0;
+		if (mtbl_compress(a->alg, buf, n, &c, &cl) == mtbl_res_success) {
+			if (mtbl_decompress(a->alg, c, cl, &d, &dl) != mtbl_res_success || dl != n || (n > 0 && memcmp(d, buf, n) != 0))
+				a->failures++;
+			free(d); free(c);
+		}
+		free(buf);
+	}
+	return NULL;
+}
+CAMLprim value vp_codec_mt_stress(value alg, value nthreads, value rounds)
+{
+	int nt = Long_val(nthreads);
+	pthread_t th[32]; struct vp_mt_arg args[32];
+	if (nt > 32) nt = 32;
+	for (int i = 0; i < nt; i++) { args[i].alg = Long_val(alg); args[i].rounds = Long_val(rounds); args[i].seed = i; args[i].failures = 0;
+		pthread_create(&th[i], NULL, vp_mt_worker, &args[i]); }
+	int f = 0;
+	for (int i = 0; i < nt; i++) { pthread_join(th[i], NULL); f += args[i].failures; }
+	return Val_long(f);
+}
+
 /* ---- thread pool ------------------------------------------------------------ */
 CAMLprim value vp_pool_init(value n) { return mk_ptr(mtbl_threadpool_init(Long_val(n))); }
 CAMLprim value vp_pool_destroy(value p) { struct mtbl_threadpool *tp = PTR(p); mtbl_threadpool_destroy(&tp); return Val_unit; }
